@@ -157,6 +157,27 @@ def run(repo, rep, tier):
     from . import c11 as _c11
     _c11.filename_chain(repo, rep, "R19.3")
     L.borrow(repo, rep, "R19.3", "C11", _c11._location, ("location-pair",))
+    # every alternative of a pipe expression is compiled (and so validated:
+    # an invalid one is an error of the template wherever it stands): the
+    # loop over the alternatives ends when the text is used up, not earlier
+    tc = repo.func("chameleon.tales.TalesExpr.__call__")
+    loops_ = [w for w in ast.walk(tc.node) if isinstance(w, ast.While)]
+    early = []
+    for w in loops_:
+        for b in ast.walk(w):
+            if isinstance(b, (ast.Break, ast.Return)):
+                a = getattr(b, "_parent", None)
+                inner = False
+                while a is not None and a is not w:
+                    if isinstance(a, (ast.For, ast.While)):
+                        inner = True
+                    a = getattr(a, "_parent", None)
+                if not inner:
+                    early.append(b)
+    rep.check(bool(loops_) and not early, "R19.2", tc.qualname, "the loop "
+              "over the alternatives of a pipe expression compiles all of "
+              "them", construct="pipe-all-alternatives", where=L.where(
+                  tc, early[0].lineno if early else None))
     L.state_rule(repo, rep)
 
 
